@@ -41,6 +41,16 @@ D = {
  "S-C18-3": ("node ExportGenesis skips pledges whose storage and shard collateral are both zero", "a provider that withdrew all capacity and holds no shard at export time"),
  "S-C19-3": ("ReportFaults compares the looked-up metadata's data id with itself instead of the order's", "a report whose order/shard/provider are consistent but whose data id names another existing model"),
  "S-C20-3": ("CheckDelegationShare divides the node's shares by the validator's tokens instead of its delegator shares", "a slashed validator (tokens < shares) and a node just below the threshold"),
+ "S-C04-4": ("market Claim saves the worker record on the 'less than one coin' early return without moving LastRewardAt", "a provider whose pending income is below one coin claims repeatedly (small shards / frequent claims): the same blocks are counted again"),
+ "S-C05-4": ("MsgCancel removes only Completed / Waiting / Migrating shards (a status switch)", "an order re-assigned at least once (Timeout-status shards) is cancelled before any completion"),
+ "S-C06-4": ("ShardPledge builds the coins to transfer before the raise to the queued renewal collateral (same mechanism as S-C07-3, kept as a C06 change)", "longer renewal, migration, new provider can afford it: recorded collateral exceeds what was paid in"),
+ "S-C07-4": ("Renew assigns instead of adds a second collateral shortfall to the recorded debt (same mechanism as S-C06-1)", "two under-funded top-ups before the first debt is repaid, then the shard ends"),
+ "S-C08-4": ("ClaimReward returns early when nothing is left to pay after the debt repayment, skipping the write that consumes the accrued reward", "provider with debt >= its accrued reward (>= 1 coin) claims; the same reward repays debt again on every claim"),
+ "S-C11-4": ("removeDataExpireBlock writes back the unfiltered list when other models share the height", "two models scheduled for deletion at the same height, one of them renewed"),
+ "S-C12-4": ("SetTimeoutOrderBlock prunes ids of orders that are gone or OrderCompleted when appending to an existing height", "a replica-2 order with one shard stored and one silent (status Completed) and another order scheduled onto the same height"),
+ "S-C13-4": ("MigrateShard files the new shard under the old shard's order instead of the order that lists it", "migration of a shard with a queued renewal, the paying order ends while the migration is pending"),
+ "S-C14-4": ("rotation into a renewal also sets shard.Pledge to the renewal's collateral", "renewal shorter than the running period, rotation, final expiry"),
+ "S-C16-4": ("Store skips the base-commit comparison for force-pushes", "force-push naming a stale or garbage base on a committed model"),
  "S-C20-2": ("the staking hook takes the absolute value of the share delta, so a top-up is counted as a reduction", "a node right around the share threshold whose delegation is modified (top-up) after another delegation changed the validator's total"),
 }
 res = collections.defaultdict(list)
